@@ -1,4 +1,5 @@
 import ClaripyProofs.Lemmas.Solver.CachelessHistory
+import ClaripyProofs.Lemmas.Solver.SolverGiveUp
 /-!
 # C17 — a solver stays correct after the backend gives up
 
@@ -9,7 +10,11 @@ Proved:
   * SolverCacheless, whole stack: a call that gives up leaves the frontend invariant intact
     (`C17_giveup_keeps_invariant`), hence in any history every answer — in particular those AFTER a give-up — is
     one the property statement allows or is itself an honest give-up (`C17_cacheless_after_giveup`).
-The caching classes are covered by fault injection on the real code plus the trace correspondence (design_notes/C17.md).
+  * the caching class `Solver`, whole stack with all its caches: the same (`C17_solver_giveup_keeps_invariant`,
+    `C17_solver_after_giveup`, `C17_solver_later_answers_after_giveup`); the hypotheses of the refinement theorem do not
+    exclude give-ups (`C17_hypotheses_allow_giveups`), and `gEnv` / `gHist` is an environment meeting them whose backend really
+    gives up on the first call of a history.
+The other classes are covered by fault injection on the real code plus the trace correspondence (design_notes/C17.md).
 -/
 namespace Claripy.Props.C17
 open Claripy.Solver Claripy.Gen.SolverMro LayerName
@@ -37,5 +42,87 @@ theorem C17_cacheless_after_giveup {E : Env} {R : Con → Prop} (hR : Reg R E) (
   rcases cl_hist_giveup hR hE hS hT hist _ _ (tinv_init R) hok x hx with h | ⟨e, he, hg⟩
   · exact Or.inl h
   · exact Or.inr ⟨by rw [he, hg.1], hg.2⟩
+
+/-! ### the caching class `Solver`
+
+A give-up can strike in the middle of `_batch_eval` (blocking clauses pushed, some models already handed to `_model_hook` and
+cached), of the binary search of `_extrema`, of the satisfiability pre-check of `min`/`max`, or after ConstraintExpansionMixin
+/ SimplifyHelperMixin already changed the constraint list.  The invariant `SI = BInv ∧ MCInv ∧ SCInv` holds at every `raise`:
+the specifications of all layers (`SatSpec`, `BatchSpec`, `OptSpec`, `SolSpec`) say so for the error branch too. -/
+
+variable {E : Env} {R : Con → Prop} {RE : Exp → Prop}
+
+/-- whatever a call on a `Solver` does — answer, raise `UnsatError`, give up — the invariant all later answers of every solver
+of the tree rest on holds afterwards: cached models still satisfy the user's constraints, the exhausted tables are still
+right, the cached satisfiability verdict is still right, the Z3 object asserts (with what is pending) exactly the constraints -/
+theorem C17_solver_giveup_keeps_invariant (H : SolverHyps R RE E) (w : World) (Us : List (List Con))
+    (hw : TInvS R RE E Us w) (i : Nat) (hi : i < w.fes.length) (op : Op) (hop : InScopeS R RE op) :
+    TInvS R RE E (usersAll Us i op) (step E .Solver w i op).2 :=
+  (sol_step H w Us hw i hi op hop).2
+
+/-- no hypothesis that the backend answers: every outcome of every history on a tree of branched caching solvers is allowed,
+or is the give-up error with the oracle having answered `unknown` -/
+theorem C17_solver_after_giveup (H : SolverHyps R RE E) (track : Bool) (hist : List (Nat × Op))
+    (hok : HistOkS R RE 1 hist) :
+    ∀ x ∈ runHist E .Solver (World.init track false) [[]] hist,
+      Judge x.1 x.2.1 x.2.2 ∨ (x.2.2 = .err .giveUp ∧ GaveUp E) := by
+  intro x hx
+  rcases sol_hist_giveup H hist _ _ (tinvS_init R RE E track) hok x hx with h | ⟨e, he, hg⟩
+  · exact Or.inl h
+  · exact Or.inr ⟨by rw [he, hg.1], hg.2⟩
+
+/-- **after a give-up.** In any world of the tree, if the call `op` on solver `i` ends in the give-up error, then the backend did
+answer `unknown`; no user's constraint list changed; the invariant holds; and whatever is done afterwards (any history in scope,
+on the same solver, on branches made before or after, on any other solver) every answer is allowed for the constraints of the
+solver asked, or is again an honest give-up. -/
+theorem C17_solver_later_answers_after_giveup (H : SolverHyps R RE E) (w : World) (Us : List (List Con))
+    (hw : TInvS R RE E Us w) (i : Nat) (hi : i < w.fes.length) (op : Op) (hop : InScopeS R RE op)
+    (hg : (step E .Solver w i op).1 = .err .giveUp) :
+    GaveUp E ∧ TInvS R RE E Us (step E .Solver w i op).2 ∧
+    ∀ rest, HistOkS R RE w.fes.length rest →
+      ∀ x ∈ runHist E .Solver (step E .Solver w i op).2 Us rest,
+        Judge x.1 x.2.1 x.2.2 ∨ (x.2.2 = .err .giveUp ∧ GaveUp E) := by
+  obtain ⟨hj, hw'⟩ := sol_step H w Us hw i hi op hop
+  obtain ⟨hU, hn⟩ := sol_error_users H w Us hw i hi op hop _ hg
+  have hlen := sol_step_length H w Us hw i hi op hop
+  rw [hU] at hw'
+  rw [hn] at hlen
+  have hgave : GaveUp E := by
+    rw [hg] at hj
+    rcases hj with hj | ⟨e, _, hge⟩
+    · cases op <;> exact hj.elim
+    · exact hge.2
+  refine ⟨hgave, hw', fun rest hrest x hx => ?_⟩
+  rcases sol_hist_giveup H rest _ _ hw' (by rw [hlen]; exact hrest) x hx with h | ⟨e, he, hge⟩
+  · exact Or.inl h
+  · exact Or.inr ⟨by rw [he, hge.1], hge.2⟩
+
+/-- the hypotheses of the refinement theorems cannot exclude give-ups: turning any answers of the backend into `unknown`
+keeps all of them -/
+theorem C17_hypotheses_allow_giveups (H : SolverHyps R RE E) (o' : Query → Nat → Answer)
+    (ho : ∀ q k, o' q k = E.oracle q k ∨ o' q k = .unknown) : SolverHyps R RE { E with oracle := o' } :=
+  H.giveUpMore o' ho
+
+/-- non-vacuity: `gEnv` satisfies the hypotheses, its backend gives up, the history `gHist` is in scope … -/
+example : SolverHyps cR cRE gEnv ∧ GaveUp gEnv ∧ HistOkS cR cRE 1 gHist := ⟨gHyps, gEnv_gaveUp, gHist_ok⟩
+
+/-- … its first call (`satisfiable()` on the empty solver) really ends in the give-up error, and the calls after it — `add(x == 5)`,
+`eval`, `branch`, `max` on the branch, `solution` on the parent, `add` on the branch, `eval` — are answered -/
+example : (runHist gEnv .Solver (World.init false false) [[]] (gHist.take 8)).map (·.2.2) =
+    [.err .giveUp, .cons [2], .vals [5], .newSolver 1, .int 5, .bool true, .cons [1], .vals [5]] := gHist_outputs
+
+/-- … and the theorems apply to it: every answer of the whole history (also those after the pickle round trip, which the
+backend is asked for) is allowed or an honest give-up -/
+example : ∀ x ∈ runHist gEnv .Solver (World.init false false) [[]] gHist,
+    Judge x.1 x.2.1 x.2.2 ∨ (x.2.2 = .err .giveUp ∧ GaveUp gEnv) :=
+  C17_solver_after_giveup gHyps false gHist gHist_ok
+
+example : (step gEnv .Solver (World.init false false) 0 (.satisfiable [])).1 = .err .giveUp ∧
+    ∀ rest, HistOkS cR cRE 1 rest →
+      ∀ x ∈ runHist gEnv .Solver (step gEnv .Solver (World.init false false) 0 (.satisfiable [])).2 [[]] rest,
+        Judge x.1 x.2.1 x.2.2 ∨ (x.2.2 = .err .giveUp ∧ GaveUp gEnv) := by
+  have hg : (step gEnv .Solver (World.init false false) 0 (.satisfiable [])).1 = .err .giveUp := by decide +kernel
+  exact ⟨hg, (C17_solver_later_answers_after_giveup gHyps _ _ (tinvS_init cR cRE gEnv false) 0 (by decide)
+    (.satisfiable []) (by simp [InScopeS]) hg).2.2⟩
 
 end Claripy.Props.C17
